@@ -192,21 +192,65 @@ def warp_error(X, blocks):
     return dw
 
 
-RefMatern.coq = lambda self: "(KM %s %s)" % (_fvec(self.ib), _fl(self.cs))
+def _wblocks(blocks):
+    return "[" + "; ".join("mkW NumF %d%%nat %d%%nat %s %s" % (lo, up, _fvec(a), _fvec(b)) for lo, up, a, b in blocks) + "]"
+
+
+# kexpr terms of model/GPLin.v (evaluated at NumF), a bound on |k|, per-coordinate Lipschitz bounds, and the
+# extra tolerance for pow = exp(y log x)
+RefMatern.coq = lambda self: "(KMat NumF %s %s %s)" % (_fvec(self.ib), _fl(self.cs), _fl(JITTER))
+RefMatern.bound = lambda self: self.cs
 RefMatern.cs_bound = lambda self: self.cs
+RefMatern.sens = lambda self, D: 1.5 * self.cs * np.asarray(self.ib, dtype=float)
 RefMatern.pow_extra = lambda self, X: 0.0
-RefWarped.coq = lambda self: "(KW %s [%s])" % (self.inner.coq(), "; ".join(
-    "(%d%%nat, %d%%nat, %s, %s)" % (lo, up, _fvec(a), _fvec(b)) for lo, up, a, b in self.blocks))
-RefWarped.cs_bound = lambda self: self.inner.cs_bound()
-RefWarped.pow_extra = lambda self, X: 3.0 * self.inner.cs_bound() * float(
-    np.sum(np.asarray(self.inner.ib) * warp_error(X, self.blocks)))
-RefSlice.coq = lambda self: "(KR %s %d%%nat %d%%nat)" % (self.inner.coq(), self.start, self.stop - self.start)
-RefSlice.cs_bound = lambda self: self.inner.cs_bound()
+RefWarped.coq = lambda self: "(KWarp NumF %s %s %s)" % (self.inner.coq(), _fl(JITTER), _wblocks(self.blocks))
+RefWarped.bound = lambda self: self.inner.bound()
+RefWarped.cs_bound = lambda self: self.inner.bound()
+RefWarped.sens = lambda self, D: self.inner.sens(D) * 4.0
+RefWarped.pow_extra = lambda self, X: (self.inner.pow_extra(ref_warp(X, self.blocks))
+                                       + 2.0 * float(np.sum(self.inner.sens(np.asarray(X).shape[1]) * warp_error(X, self.blocks))))
+RefSlice.coq = lambda self: "(KRange NumF %s %d%%nat %d%%nat)" % (self.inner.coq(), self.start, self.stop - self.start)
+RefSlice.bound = lambda self: self.inner.bound()
+RefSlice.cs_bound = lambda self: self.inner.bound()
+
+
+def _slice_sens(self, D):
+    out = np.zeros(D)
+    out[self.start:self.stop] = self.inner.sens(self.stop - self.start)
+    return out
+
+
+RefSlice.sens = _slice_sens
 RefSlice.pow_extra = lambda self, X: self.inner.pow_extra(np.asarray(X)[:, self.start:self.stop])
 # ProductKernelFunction(k1, k2) splits at d1: first factor on x[:d1], second on x[d1:]
-RefProduct.coq = lambda self: "(KP %s %d%%nat %s)" % (self.k1.inner.coq(), self.k1.stop, self.k2.inner.coq())
-RefProduct.cs_bound = lambda self: self.k1.cs_bound() * self.k2.cs_bound()
-RefProduct.pow_extra = lambda self, X: (self.k1.pow_extra(X) * self.k2.cs_bound() + self.k2.pow_extra(X) * self.k1.cs_bound())
+RefProduct.coq = lambda self: "(KProd NumF %s %d%%nat %s)" % (self.k1.inner.coq(), self.k1.stop, self.k2.inner.coq())
+RefProduct.bound = lambda self: self.k1.bound() * self.k2.bound()
+RefProduct.cs_bound = lambda self: self.k1.bound() * self.k2.bound()
+RefProduct.sens = lambda self, D: self.k1.sens(D) * self.k2.bound() + self.k2.sens(D) * self.k1.bound()
+RefProduct.pow_extra = lambda self, X: (self.k1.pow_extra(X) * self.k2.bound() + self.k2.pow_extra(X) * self.k1.bound())
+RefExpDecay.coq = lambda self: "(KExpD NumF %s %d%%nat %s %s %s %s %s)" % (
+    self.kx.coq(), self.dx, _fl(self.mu), _fl(self.alpha), _fl(self.mean_lam), _fl(self.gamma), _fl(self.delta))
+RefExpDecay._pref2 = lambda self: (self.gamma - self.delta * self.mu) ** 2
+RefExpDecay.bound = lambda self: 4.0 * self.kx.bound() + 2.0 * self._pref2()
+RefExpDecay.cs_bound = lambda self: self.bound()
+
+
+def _ed_sens(self, D):
+    out = np.zeros(D)
+    out[:self.dx] = 4.0 * self.kx.sens(self.dx)
+    out[self.dx] = 6.0 * self.mean_lam * (self.kx.bound() + self._pref2())     # |d kappa / d r| <= alpha/beta = mean_lam
+    return out
+
+
+def _ed_pow_extra(self, X):
+    r = np.asarray(X, dtype=float)[:, self.dx]
+    beta = self.alpha / self.mean_lam
+    e = C_TOL * EPS * (1.0 + self.alpha * float(np.max(np.abs(np.log(beta / (2 * np.max(r) + beta))))))
+    return 9.0 * (self.kx.bound() + self._pref2()) * e + 4.0 * self.kx.pow_extra(np.asarray(X)[:, :self.dx])
+
+
+RefExpDecay.sens = _ed_sens
+RefExpDecay.pow_extra = _ed_pow_extra
 
 
 # --------------------------------------------------------------------------
@@ -539,11 +583,13 @@ def run_case(ctx, spec, ck_cases=None, ck_meta=None):
              % (float(np.max(np.abs(dall - np.diag(Kall)))), dtol), "diagonal_vs_forward")
     if float(np.max(np.abs(Kall - Kall.T))) > ktol:
         viol("kernel(X, X) is not symmetric", "kernel_symmetry")
-    if ck_cases is not None and sub in ("warp", "product", "range", "matern") and D <= 6:
-        ck_cases.append("(%s, %s, %s, %s, %s, %s, %s)" % (ref.coq(), _fl(JITTER), _fmat(X), _fmat(Xt), _fmat(K), _fmat(Kte),
-                                                      _fl(ktol + ref.pow_extra(allX))))
+    if ck_cases is not None and D <= 6:
+        ctol = ktol + ref.pow_extra(allX)
+        ck_cases.append("(%s, %s, %s, %s, %s, %s, %s, %s)" % (
+            ref.coq(), _fmat(X), _fmat(Xt), _fmat(K), _fmat(Kte), _fvec(kd),
+            "true" if kern.diagonal_depends_on_X() else "false", _fl(ctol)))
         ck_meta.append(dict(kind="gpc", spec=spec))
-        ctx.h("composite_coq_tol_useful", bool(ktol + ref.pow_extra(allX) < 1e-6 * ref.cs_bound()))
+        ctx.h("composite_coq_tol_useful", bool(ctol < 1e-6 * ref.bound()))
     mtol = 64 * EPS * (1 + float(np.max(np.abs(mref(allX)))))
     if not (np.all(np.abs(mv - mref(X)) <= mtol) and np.all(np.abs(ms - mref(Xt)) <= mtol)):
         viol("mean function deviates from the independent formula", "mean_function")
@@ -780,6 +826,7 @@ def check_model(ctx, viol, model, X, y, Xt, d, step):
     if sign > 0 and not abs(nl - nll_r) <= tolN:
         viol("the posterior state's negative log likelihood %r differs from the dense expression %r for the current "
              "parameters and data (tol %.3g)" % (nl, nll_r, tolN), "nlml", step)
+    result = dict(mu=mu, var=var, tolM=tolM, tolV=tolV, plain_noise=bool(sig == noise), cond=cond)
     ctx.h("fit_tol_useful", bool(tolM < 1e-4 * (1 + float(np.max(np.abs(mean_r))))))
     if mu.shape != mean_r.shape or not np.all(np.abs(mu - mean_r) <= tolM):
         viol("model.predict means differ from the dense posterior of the data of this fit under get_params() by %.3g "
@@ -789,6 +836,7 @@ def check_model(ctx, viol, model, X, y, Xt, d, step):
         viol("model.predict variances differ from the dense posterior of the data of this fit under get_params() by "
              "%.3g (tol %.3g)" % (float(np.max(np.abs(var - var_r))) if var.shape == var_r.shape else float("nan"), tolV),
              "variance", step)
+    return result
 
 
 def gen_fit(rng, k):
@@ -881,7 +929,7 @@ def gen_seq(rng, k):
                 reset=bool(rng.random() < 0.5))
 
 
-def run_seq(ctx, spec):
+def run_seq(ctx, spec, sq_cases=None, sq_meta=None):
     import random
     from unittest import mock
     from syne_tune.optimizer.schedulers.searchers.bayesopt.gpautograd.kernel import Matern52
@@ -908,6 +956,15 @@ def run_seq(ctx, spec):
                       case=dict(kind="gps", spec=spec),
                       signature=dict(component="gp_model_recompute", quantity=quantity, step=step.split("#")[0],
                                      after=history[-2] if len(history) > 1 else None))
+    def gparams():
+        prm = {k_: float(v) for k_, v in model.get_params().items()}
+        ibs = [prm["kernel_inv_bw"]] * d if "kernel_inv_bw" in prm else [prm["kernel_inv_bw%d" % i_] for i_ in range(d)]
+        return "(mkGP NumF %s %s %s %s)" % (_fvec(ibs), _fl(prm["kernel_covariance_scale"]),
+                                            _fl(prm.get("mean_mean_value", 0.0)), _fl(prm["noise_variance"]))
+
+    def gdata():
+        return "(mkGD NumF %s %s)" % (_fmat(data["features"]), _fvec(np.asarray(data["targets"]).reshape(-1)))
+    p0, steps, coq_ok = gparams(), [], True
     for i, o in enumerate(spec["ops"]):
         op = o["op"]
         history.append(op)
@@ -916,9 +973,11 @@ def run_seq(ctx, spec):
             prm = model.get_params()
             prm.update(o["params"])
             model.set_params(prm)
+            steps.append("(GSet NumF %s, None)" % gparams())
             continue
         if op == "reset_params":
             model.reset_params()
+            steps.append("(GReset NumF %s, None)" % gparams())
             continue
         if op == "recompute_same":
             model.recompute_states(data)
@@ -935,6 +994,22 @@ def run_seq(ctx, spec):
         else:
             with mock.patch.object(optimization_utils.optimize, "minimize", side_effect=_failing_minimize):
                 model.fit(data)
-        check_model(ctx, viol, model, np.asarray(data["features"]), np.asarray(data["targets"]), Xt, d, "%s#%d" % (op, i))
+        res = check_model(ctx, viol, model, np.asarray(data["features"]), np.asarray(data["targets"]), Xt, d,
+                          "%s#%d" % (op, i))
+        if op in ("fit", "fit_fail"):
+            term = "GFit NumF %s %s %s" % (gdata(), gparams(), "None" if op == "fit_fail" else "(Some %s)" % gparams())
+        else:
+            term = "GRecompute NumF %s" % gdata()
+        if res is None or not res["plain_noise"] or not C_TOL * 16 * EPS * res["cond"] < 0.1:
+            coq_ok = False
+            steps.append("(%s, None)" % term)
+        else:
+            steps.append("(%s, Some (%s, %s, %s, %s))" % (term, _fmat(res["mu"].reshape(-1, 1)), _fvec(res["var"]),
+                                                        _fl(4 * res["tolM"]), _fl(4 * res["tolV"])))
+    if sq_cases is not None and coq_ok:
+        from syne_tune.optimizer.schedulers.searchers.bayesopt.gpautograd.constants import MIN_POSTERIOR_VARIANCE
+        sq_cases.append("(%s, %s, %s, %s, [%s])" % (_fl(JITTER), _fl(MIN_POSTERIOR_VARIANCE), p0, _fmat(Xt),
+                                                   "; ".join(steps)))
+        sq_meta.append(dict(kind="gps", spec=spec))
     ctx.count(("gps", spec), nontrivial=any(a_["op"] in ("set_params", "reset_params", "grow_recompute")
                                             for a_ in spec["ops"]))
